@@ -154,6 +154,7 @@ class Run:
         if d is not None and "--sat-solver" not in flags: flags += ["--sat-solver", "cadical"]
         if "--object-bits" not in flags: flags += ["--object-bits", "12"]
         if "--no-malloc-may-fail" not in flags: flags += ["--no-malloc-may-fail"]
+        if "--unwind" not in flags: flags += ["--unwind", "24"]      # every run terminates; unwinding assertions tell when this is not enough
         if "--unwinding-assertions" not in flags: flags += ["--unwinding-assertions"]   # a silently cut loop would make any run unsound
         cmd = ["cbmc", gb, "--json-ui", "--no-standard-checks"] + flags
         self.cbmc_cmd = cmd
